@@ -338,19 +338,28 @@ func C12(p *load.Program, run *report.Run) {
 			continue
 		}
 		set := map[string]bool{}
-		ast.Inspect(fd.Body, func(n ast.Node) bool {
-			switch x := n.(type) {
-			case *ast.SelectorExpr:
-				if fn, ok := pkgM.TypesInfo.Uses[x.Sel].(*types.Func); ok && fn.Pkg() != nil && fn.Pkg().Path() == load.Module+"/compiler/circuits" && strings.HasPrefix(fn.Name(), "New") {
-					switch fn.Name() {
-					case "NewAllocator", "NewCompiler":
-					default:
-						set[fn.Name()] = true
+		// the method and the helpers of its package it builds the circuit with (a divider shared by Div and Mod)
+		bodies := []*ast.BlockStmt{fd.Body}
+		for _, cd := range calleeDecls(p, pkgM, fd, 2) {
+			if cd.pkg == pkgM && cd.fd.Recv == nil {
+				bodies = append(bodies, cd.fd.Body)
+			}
+		}
+		for _, body := range bodies {
+			ast.Inspect(body, func(n ast.Node) bool {
+				switch x := n.(type) {
+				case *ast.SelectorExpr:
+					if fn, ok := pkgM.TypesInfo.Uses[x.Sel].(*types.Func); ok && fn.Pkg() != nil && fn.Pkg().Path() == load.Module+"/compiler/circuits" && strings.HasPrefix(fn.Name(), "New") {
+						switch fn.Name() {
+						case "NewAllocator", "NewCompiler":
+						default:
+							set[fn.Name()] = true
+						}
 					}
 				}
-			}
-			return true
-		})
+				return true
+			})
+		}
 		var got []string
 		for k := range set {
 			got = append(got, k)
